@@ -7,7 +7,7 @@
                 rational: division by zero, irrational square root, logarithm of anything but 1)
                 -- this instance is RUN inside Coq against the implementation.
     No proofs in this file. *)
-From Coq Require Import List ZArith QArith Qcanon Reals String.
+From Coq Require Import List ZArith QArith Qabs Reals.
 Import ListNotations.
 
 Record num_ops (T : Type) := mkOps {
